@@ -79,7 +79,7 @@ def build(config, verbose=False):
             sp = os.path.join(src, s)
             o = os.path.join(bdir, "lib", s[:-2] + ".o")
             cmd = ["clang", "-c"] + COMMON + SAN + ["-fsanitize-coverage=trace-pc-guard"] + cflags + incs + ["-o", o, sp]
-            key = _hash_files([sp] + repo_headers, cmd)
+            key = _hash_files([sp] + repo_headers + _listdir(os.path.join(SIM, "userconfig"), (".h",)), cmd)
             jobs.append((o, key, cmd))
             objs.append(o)
         for sp in _listdir(SIM, (".cc",)):
